@@ -211,11 +211,28 @@ def handle (j : Json) : Json :=
         ("type", optStringJson (renderType lk a)),
         ("inferred", optStringJson (renderWithInferredLifetimes lk a))])
     ]
+    let ltName := (getStr? j "lt_name").getD "q"
+    let ltMap : List (String × String) := match getArr? j "lt_map" with
+      | some l => l.filterMap (fun e => match e with
+          | .arr #[.str k, .str v] => some (k, v)
+          | _ => none)
+      | none => []
+    let si := setImplicit ltName a
+    let rn := renameLts ltMap a
+    let lts : List (String × Json) := [
+      ("has_implicit_a", hasImplicit a),
+      ("set_implicit_a", tyToJson si),
+      ("has_implicit_after", hasImplicit si),
+      ("canon_set_implicit_a", tyToJson (canonicalize si)),
+      ("rename_a", tyToJson rn),
+      ("canon_rename_a", tyToJson (canonicalize rn)),
+      ("lifetimes_a", Json.arr ((lifetimes a []).map ltToJson).toArray),
+      ("named_lifetimes_a", Json.arr ((namedLts a []).map Json.str).toArray)]
     let extra : List (String × Json) :=
       if wfReq then [
         ("reparse_a", match parse (renderD false a) with | some t => tyToJson t | none => Json.null),
         ("reparse_type_a", match (renderLk lk false a).bind parse with | some t => tyToJson t | none => Json.null)] else []
-    Json.mkObj (base ++ extra)
+    Json.mkObj (base ++ lts ++ extra)
   | _, _, _, _ => Json.mkObj [("r", "bad-op")]
 
 end Pxv.Ty
